@@ -74,12 +74,13 @@ ASSUMPTIONS = [
     "thresholds other than 0 / 1 keep a distance of 1e-5 from every row confidence (row-wise vs table-wise softmax may differ in the last digit), except exact-tie tables: rows of identical logits (class count 2 / 4 / 8) or two identical logits and -inf otherwise, whose confidence is exactly 1/count resp. 0.5 on both paths, with the threshold at or above that value; only bulk == per-sample is judged there, not which side of the tie is right",
     "the in-place consumer between two encoder reads is KDMixWrapper(mixup_p=1, mixup_alpha=1, seed) over a harness dataset with the same python-int labels (labelled, non-binary layers only); its own outputs are judged by C10 / C11, not here",
     "bulk label storage of the leaf: list, or ndarray / tensor of dtype int64 / int32 / int16 / uint8 (uint8 only without -1 entries)",
+    "soft / thresholded pseudo-label tables are stored as float32 / float16 / bfloat16 / float64 (unique row maximum in that dtype); 'top' thresholds sit exactly on one row's top probability as computed in the table's own dtype, or one representable value above / below: established on the current tree (1200 wrapper comparisons per dtype) that row-wise and table-wise softmax are bit-identical there; only bulk == per-sample is judged",
     "cross-interpreter clause: a bounded batch (<= 10 configurations per seeded wrapper family in quick, 12 per shard in thorough, plus a few unseeded ones; >= 3 samples) is recomputed in ONE child interpreter (python -m kdv.h16_child) started with another PYTHONHASHSEED; per-sample results, bulk labels and class count must be equal; a child that crashes / times out / cannot rebuild a configuration means 'not compared' (monitor stays 0 -> inconclusive), never a violation",
     "reconfiguration through KDRandomClassWrapper's public setters is driven below pass-through wrappers and encoders only (wrappers that compute a table at construction are a function of their constructor arguments); encoders are stacked on KDRandomClassWrapper only while its labels are python ints",
     "in-place edits of wrapped labels are observed through leaves whose bulk accessor hands out their own list / ndarray / tensor (as KDRandomClassWrapper.getall_class does); leaves returning copies cannot show them",
     "encoded vectors: tolerance 1e-5 on the sum, 1e-7 on sign and on the arg-max comparison (float32 arithmetic)",
 ]
-MONITORS = ["cross_interpreter_labels_compared", "helper_unlabelled_probes", "interference_reads_checked", "evidence_mix_samples_between_reads", "reconfigured_layers_checked", "exact_tie_tables", "bulk_vs_item_checked", "range_checked", "other_items_checked", "wrapped_labels_checked", "history_queries_checked",
+MONITORS = ["threshold_on_row_confidence_tables", "cross_interpreter_labels_compared", "helper_unlabelled_probes", "interference_reads_checked", "evidence_mix_samples_between_reads", "reconfigured_layers_checked", "exact_tie_tables", "bulk_vs_item_checked", "range_checked", "other_items_checked", "wrapped_labels_checked", "history_queries_checked",
             "seed_differential_checked", "encoding_checked", "aliasing_leaf_cases", "topk_bulk_refusals"]
 
 KINDS = list(_MODS)
@@ -205,6 +206,12 @@ def _gen_layer(rng, kind, n, dim, unl):
                 L["tie"] = {"kind": rng.choice(["uniform", "pair"]) if dim in (2, 4, 8) else "pair", "c": rng.choice([0.0, 2.5, -1.0, 0.37]),
                             "share": rng.choice([0.1, 0.3, 1.0])}
                 L["thr"] = rng.choice(["tie", "tie", "tie", 0.9, 1.0])  # never below the tie: which tied class wins is not judged
+        if form in ("soft", "thr") and "tie" not in L:
+            # storage dtype of the table (half-precision tables save disk space); the threshold may sit right on a row's top
+            # probability as computed in that dtype, or one representable value above / below it
+            L["tdtype"] = rng.choice(["float32", "float16", "float16", "bfloat16", "bfloat16", "float64"])
+            if form == "thr" and rng.random() < 0.7:
+                L["thr"], L["ulp"] = "top", rng.choice([-1, 0, 0, 0, 1])
         if form == "topk":
             L.update(topk=rng.choice([1, dim, rng.randint(1, dim)]), tau=rng.choice([None, "inf", 0.5, 1.0, 2.0, 5.0]),
                      seed=rng.choice([0, 1, rng.randrange(10 ** 6)]))
@@ -382,6 +389,16 @@ def _pseudo_table(L, n, dim):
                 t[i, cols[i]] = tie["c"]
     if L["form"] == "topk" and L["tau"] is None:
         t = t.softmax(dim=1)
+    if L.get("tdtype", "float32") != "float32":
+        t = t.to(getattr(torch, L["tdtype"]))
+        for _ in range(6):  # the row maximum stays unique after rounding to the table's dtype
+            if t.size(0) == 0 or t.size(1) < 2:
+                break
+            top2 = t.float().topk(2, dim=1) if t.dtype != torch.float64 else t.topk(2, dim=1)
+            tied = top2.values[:, 0] == top2.values[:, 1]
+            if not tied.any():
+                break
+            t[torch.arange(t.size(0))[tied], top2.indices[tied, 0]] += 0.25
     return t
 
 
@@ -395,6 +412,12 @@ def _threshold(L, table):
     thr = L["thr"]
     if thr == "tie":
         return _tie_prob(L, table.size(1))
+    if thr == "top":
+        if len(table) == 0:
+            return 0.5
+        top = table.softmax(dim=1).max(dim=1).values[min(int(L["q"] * len(table)), len(table) - 1)]  # in the table's own dtype
+        bits = {2: torch.int16, 4: torch.int32, 8: torch.int64}[top.element_size()]
+        return (top.view(bits) + L["ulp"]).view(top.dtype).item()  # positive floats: neighbouring bit patterns are neighbouring values
     if thr in (0.0, 1.0) or len(table) == 0:
         return 0.5 if thr == "q" else float(thr)
     mx = sorted(table.softmax(dim=1).max(dim=1).values.tolist())
@@ -885,6 +908,9 @@ def _semantics(run, L, what, w, items, bulk, below_labels, dim_in, dim, n, aux):
     elif k == "pseudo":
         table = aux["table"]
         form = L["form"]
+        if L.get("thr") == "top" and n > 0:
+            run.count("threshold_on_row_confidence_tables")
+            run.count(f"evidence_threshold_on_row_{L.get('tdtype', 'float32')}")
         if aux.get("exact_tie"):
             run.count("exact_tie_tables")
         if form == "hard":
